@@ -123,6 +123,8 @@ def gen_C01(rng, tier):
 
 
 def nontrivial_multi(case, o):
+    if case['family'] == 'c':
+        return len(scan(o, 'result')) + len(scan(o, 'value')) >= 2
     p = case['case']['cmds'][0][2]
     return has_kind(p, MULTI) and n_results(o) >= 2
 
@@ -151,6 +153,8 @@ def gen_C02(rng, tier):
             p = qcase.fix_path(p[:i + 1] + ins + p[i + 1:])
         out.append(Q({'doc': d, 'cmds': [('iter', 'doc', p, False, False), ('drain', 0, 80, 1)]}))
         n += 1
+    # documents that share a container object between several places (heap family, acyclic)
+    out += [{'family': 'c', 'case': ccase.gen_dagcase(rng)} for _ in range(sized(tier, 150, 1500))]
     return out
 
 
@@ -914,7 +918,8 @@ REGISTRY = {
                      "perturbed; non-trivial = at least one multi-valued step and >= 2 results",
                 obligations=[]),
     'C02': dict(level='proof', gen=gen_C02, nontrivial=nontrivial_multi,
-                rule="paths with >= 1 recursive step in any position; non-trivial = >= 2 results", obligations=[]),
+                rule="paths with >= 1 recursive step in any position; also acyclic heaps in which one container object occurs in "
+                     "several places, run to the end; non-trivial = >= 2 results", obligations=[]),
     'C03': dict(level='proof', gen=gen_C03, nontrivial=nontrivial_calls,
                 rule="filters with user predicates (constants of every truthiness, data-dependent, raising) at the root, after "
                      "wildcard/rec/slice, stacked; non-trivial = predicate called >= 2 times", obligations=[]),
